@@ -581,6 +581,17 @@ func genValue(emit func(string), tier string, rng *Rng) {
 		val("inv:", 0, bt)
 	}
 	val("inv:", 1, 0xff)
+	// --- every value type against every base-type byte 0..255 (Align / Valid / the unmarshal that follows)
+	for _, v := range []string{"inv:", "bool:01", "i8:7e", "u8:00", "u8:ff", "i16:0100", "u16:0000", "u16:ffff", "i32:01000000", "u32:00000000",
+		"u32:ffffffff", "i64:0100000000000000", "u64:0000000000000000", "u64:ffffffffffffffff", "f32:0000803f", "f64:000000000000f03f",
+		"str:6162", "bools:0100ff", "i8s:017f", "u8s:00ff", "u8s:0000", "i16s:0100ff7f", "u16s:0000ffff", "u16s:0000", "i32s:01000000",
+		"u32s:00000000ffffffff", "u32s:00000000", "i64s:0100000000000000", "u64s:0000000000000000", "u64s:ffffffffffffffff", "f32s:0000803f",
+		"f64s:000000000000f03f", "strs:6162,63,"} {
+		for bt := 0; bt < 256; bt++ {
+			val(v, bt&1, byte(bt))
+			count("type-x-basetype")
+		}
+	}
 	// --- exhaustive: every 8-bit scalar of bool/i8/u8 × both byte orders × every base type it aligns with + two foreign ones
 	for _, tag := range []string{"bool", "i8", "u8"} {
 		for x := 0; x < 256; x++ {
@@ -644,6 +655,9 @@ func genValue(emit func(string), tier string, rng *Rng) {
 					val(tag+"s:"+randElems(rng, w, blen/w), a, pickBT(tag, rng))
 					count("array")
 				}
+				// one content per (type, length, byte order) in which every byte differs from its neighbours
+				val(tag+"s:"+hex.EncodeToString(rng.Bytes(blen)), a, btsFor(tag)[rng.Intn(len(btsFor(tag)))])
+				count("array-order-sensitive")
 			}
 		}
 	}
